@@ -525,8 +525,9 @@ def known_reproducer(run: Run, policy: str) -> None:
     if r["status"] == "steplimit":
         run.report(SIG_KNOWN, 'witness of Props/C06.lean: <start> ::= ("a"?)* "b", parse("ab") does not return; '
                    f"{r.get('meter', {}).get('admitted')} states admitted when stopped at {STEP_LIMIT_EPS} steps "
-                   "(the model with the generated policy admits 25 states under the cut policy, and diverges likewise "
-                   "under policy impl)", replay_dict(t, {"class": "hasEpsCycle"}))
+                   "(the model of the parser as it is, Variant.now, admits 27 states and stops after 87 steps: theorem "
+                   "C06_cut_terminates_witnesses; the OLD admission rule diverges likewise: "
+                   "C06_old_admitImpl_diverges_example_partial)", replay_dict(t, {"class": "hasEpsCycle"}))
     elif r["status"] != "ok":
         raise MachineryError(f"witness run: {r['status']}")
     elif policy == "impl":
